@@ -252,6 +252,30 @@ func checkC23(env *kernel.Env) {
 	s1 := sessions[0]
 	s1.MustExec("CREATE TABLE t (id INT PRIMARY KEY, a INT NOT NULL, b INT NOT NULL)")
 	s1.MustExec("CREATE TABLE lg (seq INT AUTO_INCREMENT PRIMARY KEY, trig VARCHAR(16), rid INT, olda INT, newa INT, newb INT)")
+	// second level: in half of the runs the audit table has a trigger of its own,
+	// so every audit row written by a trigger of t must fire it (nested triggers)
+	s1.MustExec("CREATE TABLE lg2 (seq INT AUTO_INCREMENT PRIMARY KEY, trig VARCHAR(16), rid INT)")
+	nested := T.Bool(1, 2)
+	if nested {
+		s1.MustExec("CREATE TRIGGER lgtr AFTER INSERT ON lg FOR EACH ROW INSERT INTO lg2 (trig, rid) VALUES (NEW.trig, NEW.rid)")
+	}
+	lastSeq2 := int64(0)
+	readLog2 := func(s *Sess) []string {
+		r := s.Exec(fmt.Sprintf("SELECT seq, trig, rid FROM lg2 WHERE seq > %d ORDER BY seq", lastSeq2))
+		var out []string
+		if r.Err != nil {
+			return []string{"ERROR " + ErrClass(r.Err)}
+		}
+		for _, row := range r.Rows {
+			var seq int64
+			fmt.Sscan(FormatVal(row[0]), &seq)
+			if seq > lastSeq2 {
+				lastSeq2 = seq
+			}
+			out = append(out, strings.Trim(FormatVal(row[1]), "'")+":"+FormatVal(row[2]))
+		}
+		return out
+	}
 	m := &trigModel{rows: map[int64]*trigRow{}, order: map[string][]*trigDef{}}
 	// failures inside a statement whose triggers write to lg meet a known defect
 	// of the in-memory backend (no savepoints): most runs stay away from it
@@ -507,6 +531,10 @@ func checkC23(env *kernel.Env) {
 				env.Fail("effects-discarded-with-statement", prefix+"rows:"+st.kind+":"+wantErr, "%q failed (%s) but t changed:\nbefore: %s\nafter:  %s", st.sql, cls, before, gotT)
 				break
 			}
+			if l2 := readLog2(s); len(l2) > 0 && len(gotLogs) == 0 {
+				env.Fail("effects-discarded-with-statement", prefix+"nested-audit:"+st.kind+":"+wantErr, "%q failed (%s) but %d row(s) written by the nested trigger survive: %v", st.sql, cls, len(l2), l2)
+				break
+			}
 			if len(gotLogs) > 0 {
 				env.Fail("effects-discarded-with-statement", prefix+"audit:"+st.kind+":"+wantErr, "%q failed (%s) but %d audit row(s) written by its triggers survive: %v", st.sql, cls, len(gotLogs), gotLogs)
 				break
@@ -524,6 +552,28 @@ func checkC23(env *kernel.Env) {
 		if int(r.Affected) != wantN {
 			env.Fail("affected-rows", "affected-rows-differ:"+st.kind, "%q reports %d affected row(s), the model %d", st.sql, r.Affected, wantN)
 			break
+		}
+		// the nested trigger fired once for every audit row, in the same order
+		if l2 := readLog2(s); nested || len(l2) > 0 {
+			var want []string
+			if nested {
+				for _, l := range gotLogs {
+					want = append(want, fmt.Sprintf("%s:%d", l.trig, l.rid))
+				}
+			}
+			if fmt.Sprint(l2) != fmt.Sprint(want) {
+				cls := "nested-trigger-sequence-differs"
+				if len(l2) < len(want) {
+					cls = "nested-trigger-not-fired"
+				} else if len(l2) > len(want) {
+					cls = "nested-trigger-fired-too-often"
+				}
+				env.Fail("once-per-row-in-order", cls+":"+st.kind, "after %q the triggers of t wrote the audit rows %v, but the trigger on the audit table wrote %v", st.sql, want, l2)
+				break
+			}
+			if len(want) > 0 {
+				env.Probe("nested-trigger-checked")
+			}
 		}
 		// audit rows: per affected row, exactly the model's sequence
 		got := map[int64][]trigLog{}
